@@ -44,6 +44,10 @@ type Desc struct {
 	Idx   []int  `json:"idx"`
 	Mats  []Mat  `json:"mats"`
 	Attrs []Attr `json:"attrs"`
+	// Exp: every attribute value of the Go mesh is Data * 2^-Exp (exact in float64).  Used by the
+	// scale-invariant operations to run the same integer case at tiny and huge scales; the Coq case
+	// always carries the integers.
+	Exp int `json:"exp,omitempty"`
 }
 
 var topoCoq = map[modeling.Topology]string{
@@ -81,6 +85,7 @@ func matID(m *modeling.Material) int {
 
 // Mesh builds the modeling.Mesh (fresh slices on every call).
 func (d Desc) Mesh() modeling.Mesh {
+	sc := math.Ldexp(1, -d.Exp)
 	idx := append([]int{}, d.Idx...)
 	m := modeling.NewMesh(modeling.Topology(d.Topo), idx)
 	v1 := map[string][]float64{}
@@ -92,25 +97,25 @@ func (d Desc) Mesh() modeling.Mesh {
 		case 1:
 			x := make([]float64, len(a.Data))
 			for i, v := range a.Data {
-				x[i] = float64(v[0])
+				x[i] = float64(v[0]) * sc
 			}
 			v1[a.Name] = x
 		case 2:
 			x := make([]vector2.Float64, len(a.Data))
 			for i, v := range a.Data {
-				x[i] = vector2.New(float64(v[0]), float64(v[1]))
+				x[i] = vector2.New(float64(v[0])*sc, float64(v[1])*sc)
 			}
 			v2[a.Name] = x
 		case 3:
 			x := make([]vector3.Float64, len(a.Data))
 			for i, v := range a.Data {
-				x[i] = vector3.New(float64(v[0]), float64(v[1]), float64(v[2]))
+				x[i] = vector3.New(float64(v[0])*sc, float64(v[1])*sc, float64(v[2])*sc)
 			}
 			v3[a.Name] = x
 		case 4:
 			x := make([]vector4.Float64, len(a.Data))
 			for i, v := range a.Data {
-				x[i] = vector4.New(float64(v[0]), float64(v[1]), float64(v[2]), float64(v[3]))
+				x[i] = vector4.New(float64(v[0])*sc, float64(v[1])*sc, float64(v[2])*sc, float64(v[3])*sc)
 			}
 			v4[a.Name] = x
 		}
@@ -137,6 +142,7 @@ func toInt(x float64) (int64, bool) {
 type ProjectOpt struct {
 	Skip      map[[2]string]bool // attributes (arity as string "3", name) left out
 	BlankVals bool               // do not read values, only lengths (generator outputs)
+	Exp       int                // values are read as v * 2^Exp (see Desc.Exp)
 }
 
 // Project reads a mesh through its public accessors. Attributes are returned sorted by arity
@@ -144,7 +150,8 @@ type ProjectOpt struct {
 func Project(m modeling.Mesh) (Desc, error) { return ProjectWith(m, ProjectOpt{}) }
 
 func ProjectWith(m modeling.Mesh, opt ProjectOpt) (Desc, error) {
-	d := Desc{Topo: int(m.Topology()), Idx: []int{}, Mats: []Mat{}, Attrs: []Attr{}}
+	d := Desc{Topo: int(m.Topology()), Idx: []int{}, Mats: []Mat{}, Attrs: []Attr{}, Exp: opt.Exp}
+	unscale := math.Ldexp(1, opt.Exp)
 	ix := m.Indices()
 	for i := 0; i < ix.Len(); i++ {
 		d.Idx = append(d.Idx, ix.At(i))
@@ -168,7 +175,7 @@ func ProjectWith(m modeling.Mesh, opt ProjectOpt) (Desc, error) {
 			fs := at(i)
 			row := make([]int64, arity)
 			for k, f := range fs {
-				v, ok := toInt(f)
+				v, ok := toInt(f * unscale)
 				if !ok && firstErr == nil {
 					firstErr = fmt.Errorf("attribute %s[%d] component %d is not an integer: %v", name, i, k, f)
 				}
